@@ -14,6 +14,7 @@ import (
 	"net"
 	"reflect"
 	"sort"
+	"strings"
 	"sync"
 	"sync/atomic"
 	"time"
@@ -393,6 +394,7 @@ type client struct {
 	frames []frame
 	closed bool // reader saw EOF / error
 	decodeErr string // a decoding error other than the end of the connection
+	closing   bool   // the harness itself is closing the connection
 	rdDone chan struct{}
 	wmu    sync.Mutex
 }
@@ -511,7 +513,7 @@ func (c *client) readLoop() {
 			}
 			c.mu.Lock()
 			c.closed = true
-			if err != io.EOF && !errors.Is(err, io.ErrClosedPipe) {
+			if err != io.EOF && !errors.Is(err, io.ErrClosedPipe) && !strings.Contains(err.Error(), "closed pipe") && !c.closing {
 				c.decodeErr = err.Error()
 			}
 			c.mu.Unlock()
@@ -597,6 +599,9 @@ func (c *client) awaitFrames(n int, d time.Duration) bool {
 }
 
 func (c *client) close() {
+	c.mu.Lock()
+	c.closing = true
+	c.mu.Unlock()
 	c.conn.setStalled(false)
 	_ = c.conn.Conn.Close()
 	<-c.rdDone
